@@ -422,7 +422,7 @@ func runC16(c *run.Ctx) {
 		}
 		key := ms.SDL(model.SDLOpts{})
 		c.Eval(key, len(ms.Types)+len(ms.Dirs) >= 6)
-		if illFormed == "" && i%4 == 2 {
+		if illFormed == "" && i%2 == 0 {
 			// an extension that makes an already loaded, valid type ill-formed: refused in one document, so it must be
 			// refused as a later load too
 			if ext, what := c16BadExtension(r, ms); ext != "" {
@@ -480,6 +480,20 @@ func runC16(c *run.Ctx) {
 
 // c16BadExtension writes an extend block that breaks a type-system rule on a type of the (well-formed) set.
 func c16BadExtension(r *rand.Rand, s *model.Schema) (string, string) {
+	all := badExtensions(s)
+	if len(all) == 0 {
+		return "", ""
+	}
+	b := all[r.Intn(len(all))]
+	return b.text, b.what
+}
+
+type badExt struct{ text, what, offender string }
+
+// badExtensions lists extend blocks each of which breaks one type-system rule on top of the well-formed set s. Some
+// make the EXTENDED type ill-formed, others leave it fine and break a type that is not mentioned at all (an interface
+// gaining a field its implementers lack).
+func badExtensions(s *model.Schema) []badExt {
 	var objs, ifaces, inputs, unions, enums []*model.TypeDef
 	for _, t := range s.Types {
 		switch t.Kind {
@@ -495,40 +509,58 @@ func c16BadExtension(r *rand.Rand, s *model.Schema) (string, string) {
 			enums = append(enums, t)
 		}
 	}
-	o := objs[r.Intn(len(objs))]
-	switch r.Intn(6) {
-	case 0:
+	var out []badExt
+	for _, o := range objs {
 		for _, it := range ifaces {
 			if !s.Implements(o.Name, it.Name) {
-				missing := false
+				missing := ""
 				for _, f := range it.Fields {
 					if o.Field(f.Name) == nil {
-						missing = true
+						missing = f.Name
 					}
 				}
-				if missing {
-					return fmt.Sprintf("extend type %s implements %s { extZz: Int }", o.Name, it.Name), "implements-without-fields"
+				if missing != "" {
+					out = append(out, badExt{fmt.Sprintf("extend type %s implements %s { extZz: Int }", o.Name, it.Name), "implements-without-fields", missing})
 				}
 			}
 		}
-	case 1:
 		if len(inputs) > 0 {
-			return fmt.Sprintf("extend type %s { extZz: %s }", o.Name, inputs[0].Name), "input-type-in-field-position"
+			out = append(out, badExt{fmt.Sprintf("extend type %s { extZz: %s }", o.Name, inputs[0].Name), "input-type-in-field-position", "extZz"})
+			out = append(out, badExt{fmt.Sprintf("extend input %s { extZz: %s }", inputs[0].Name, o.Name), "output-type-in-input-field-position", "extZz"})
 		}
-	case 2:
-		return fmt.Sprintf("extend type %s { __extZz: Int }", o.Name), "reserved-field-name"
-	case 3:
-		if len(unions) > 0 && len(enums) > 0 {
-			return fmt.Sprintf("extend union %s = %s", unions[0].Name, enums[0].Name), "union-non-object-member"
+		out = append(out, badExt{fmt.Sprintf("extend type %s { __extZz: Int }", o.Name), "reserved-field-name", "__extZz"})
+		out = append(out, badExt{fmt.Sprintf("extend type %s { extZz(a: %s): Int }", o.Name, o.Name), "output-type-in-arg-position", "extZz"})
+		if len(o.Fields) > 0 {
+			out = append(out, badExt{fmt.Sprintf("extend type %s { %s: Int }", o.Name, o.Fields[0].Name), "duplicate-field", o.Fields[0].Name})
 		}
-	case 4:
-		if len(inputs) > 0 {
-			return fmt.Sprintf("extend input %s { extZz: %s }", inputs[0].Name, o.Name), "output-type-in-input-field-position"
-		}
-	default:
-		return fmt.Sprintf("extend type %s { extZz(a: %s): Int }", o.Name, o.Name), "output-type-in-arg-position"
 	}
-	return "", ""
+	if len(unions) > 0 && len(enums) > 0 {
+		out = append(out, badExt{fmt.Sprintf("extend union %s = %s", unions[0].Name, enums[0].Name), "union-non-object-member", enums[0].Name})
+	}
+	for _, e := range enums {
+		if len(e.Values) > 0 {
+			out = append(out, badExt{fmt.Sprintf("extend enum %s { %s }", e.Name, e.Values[0].Name), "duplicate-enum-value", e.Values[0].Name})
+		}
+	}
+	for _, it := range ifaces {
+		if len(s.PossibleTypes(it.Name)) > 0 {
+			// the interface stays well-formed; its implementers, which the document never mentions, no longer conform
+			out = append(out, badExt{fmt.Sprintf("extend interface %s { extIfaceZz: Int }", it.Name), "interface-gains-field-implementers-lack", "extIfaceZz"})
+			if len(it.Fields) > 0 {
+				f := it.Fields[0]
+				out = append(out, badExt{fmt.Sprintf("extend interface %s { %s: Int }", it.Name, f.Name), "duplicate-interface-field", f.Name})
+			}
+		}
+	}
+	// the same rules hold for members a document adds to ggql's own introspection types
+	out = append(out,
+		badExt{"extend type __Type { __secretZz: Int }", "reserved-field-name-on-builtin-type", "__secretZz"},
+		badExt{"extend type __Field { extZz(__dZz: Int): String }", "reserved-argument-name-on-builtin-type", "__dZz"},
+		badExt{"extend enum __TypeKind { __XZz }", "reserved-enum-value-on-builtin-enum", "__XZz"},
+		badExt{"extend type __Schema { extZz: NopeTypeZz }", "undefined-type-on-builtin-type", "NopeTypeZz"},
+		badExt{"extend type __InputValue { name: Int }", "duplicate-field-on-builtin-type", "name"},
+	)
+	return out
 }
 
 func firstDiffLong(a, b string) string {
